@@ -329,7 +329,14 @@ def rand_unknown(rng, m, big=False):
     n = rng.choice([0, 0, 0, 1, 2, 3])
     for _ in range(n):
         while True:
-            tag = rng.choice(ID_POOL) if rng.random() < 0.5 else rng.randrange(1, rng.choice([30, 5000, 1 << 29]))
+            r = rng.random()
+            if r < 0.35 and known:
+                # a number adjacent to a declared one (just before / after a run of the number-range table)
+                tag = rng.choice(sorted(known)) + rng.choice([-1, 1, 1, 2])
+            elif r < 0.65:
+                tag = rng.choice(ID_POOL)
+            else:
+                tag = rng.randrange(1, rng.choice([30, 5000, 1 << 29]))
             if tag not in known and 0 < tag < (1 << 29):
                 break
         wt = rng.choice([0, 1, 2, 5])
